@@ -240,20 +240,36 @@ class ForwardScheduler(IScheduler):
     def __forward_pass(
             self,
             _task: Task,
-            min_date: datetime,
+            project: WBS,
             resource_usage: _ResourceUsage,
-            calculated: List[int]
+            calculated: List[int],
+            in_progress: List[int]
     ):
+        if _task.wbs != project:
+            # Task outside of the project: its dates are used as they are
+            return
+
         if _task.id in calculated:
             return
 
-        for pred in _task.predecessors:
-            self.__forward_pass(pred, min_date, resource_usage, calculated)
+        if _task.id in in_progress:
+            raise RuntimeError(
+                f"Task {_task.id} waits for itself: cyclic dependency through the tasks hierarchy"
+            )
+        in_progress.append(_task.id)
 
-        max_predecessor_ends = max([t.end for t in _task.predecessors if t.end is not None] + [min_date])
+        # Task waits for its own predecessors and for predecessors of all of its parents
+        prerequisites = [t for t in _task.predecessors]
+        for parent in _task.all_parents:
+            prerequisites += [t for t in parent.predecessors]
+
+        for pred in prerequisites:
+            self.__forward_pass(pred, project, resource_usage, calculated, in_progress)
+
+        max_predecessor_ends = max([t.end for t in prerequisites if t.end is not None] + [self.__start])
 
         for ch in _task.children:
-            self.__forward_pass(ch, max_predecessor_ends, resource_usage, calculated)
+            self.__forward_pass(ch, project, resource_usage, calculated, in_progress)
 
         resource = self.__resources.setdefault(_task.resource, Resource(_task.resource))
 
@@ -275,7 +291,7 @@ class ForwardScheduler(IScheduler):
                     children_starts = [t.start for t in _task.children if t.start is not None]
                     if len(children_starts) == 0:
                         children_starts = [datetime(1970, 1, 1)]
-                    _task.start = max(min(children_starts), min_date)
+                    _task.start = min(children_starts)
 
             if _task.estimate is None:
                 if is_leaf:
@@ -302,6 +318,7 @@ class ForwardScheduler(IScheduler):
                 else:
                     _task.end = max([t.end for t in _task.children if t.end is not None])
 
+        in_progress.remove(_task.id)
         calculated.append(_task.id)
 
     def calc(self, wbs: WBS) -> Schedule:
@@ -315,7 +332,7 @@ class ForwardScheduler(IScheduler):
         forward_resource_usage = _ResourceUsage()
         calculated = []
         for t in forward.roots:
-            self.__forward_pass(t, self.__start, forward_resource_usage, calculated)
+            self.__forward_pass(t, forward, forward_resource_usage, calculated, [])
 
         return Schedule(
             forward,
@@ -412,20 +429,36 @@ class BackwardScheduler(IScheduler):
     def __backward_pass(
             self,
             _task: Task,
-            min_date: datetime,
+            project: WBS,
             resource_usage: _ResourceUsage,
-            calculated: List[int]
+            calculated: List[int],
+            in_progress: List[int]
     ):
+        if _task.wbs != project:
+            # Task outside of the project: its dates are used as they are
+            return
+
         if _task.id in calculated:
             return
 
-        for pred in _task.successors:
-            self.__backward_pass(pred, min_date, resource_usage, calculated)
+        if _task.id in in_progress:
+            raise RuntimeError(
+                f"Task {_task.id} waits for itself: cyclic dependency through the tasks hierarchy"
+            )
+        in_progress.append(_task.id)
 
-        min_successor_starts = min([t.start for t in _task.successors if t.start is not None] + [min_date])
+        # Task must be finished before its own successors and before successors of all of its parents
+        dependants = [t for t in _task.successors]
+        for parent in _task.all_parents:
+            dependants += [t for t in parent.successors]
+
+        for succ in dependants:
+            self.__backward_pass(succ, project, resource_usage, calculated, in_progress)
+
+        min_successor_starts = min([t.start for t in dependants if t.start is not None] + [self.__end])
 
         for ch in reversed(_task.children):
-            self.__backward_pass(ch, min_successor_starts, resource_usage, calculated)
+            self.__backward_pass(ch, project, resource_usage, calculated, in_progress)
 
         resource = self.__resources.setdefault(_task.resource, Resource(_task.resource))
 
@@ -444,9 +477,9 @@ class BackwardScheduler(IScheduler):
                 else:
                     children_ends = [t.end for t in _task.children if t.end is not None]
                     if len(children_ends) == 0:
-                        _task.end = min_date
+                        _task.end = min_successor_starts
                     else:
-                        _task.end = min(max(children_ends), min_date)
+                        _task.end = max(children_ends)
 
             if _task.estimate is None:
                 if is_leaf:
@@ -462,7 +495,7 @@ class BackwardScheduler(IScheduler):
 
             if is_leaf:
                 left_hours = max(_task.estimate - _task.spent, 0)
-                end = min(_task.end, min_date)
+                end = min(_task.end, min_successor_starts)
                 start = self.__shift_by_resource_usage_and_calendar(
                     resource, resource_usage, end, _task, left_hours
                 )
@@ -472,6 +505,7 @@ class BackwardScheduler(IScheduler):
             else:
                 _task.start = min([t.start for t in _task.children if t.start is not None])
 
+        in_progress.remove(_task.id)
         calculated.append(_task.id)
 
     @staticmethod
@@ -492,7 +526,7 @@ class BackwardScheduler(IScheduler):
 
         calculated = []
         for i in range(len(backward_roots) - 1, -1, -1):
-            self.__backward_pass(backward_roots[i], self.__end, backward_resource_usage, calculated)
+            self.__backward_pass(backward_roots[i], backward, backward_resource_usage, calculated, [])
 
         return Schedule(
             backward,
